@@ -59,6 +59,7 @@ impl Property for C01 {
             for _ in 0..ng { let nr = 1 + t.pick(2); let mut rs = vec![]; for _ in 0..nr { let mut g = RuleGen::new(RuleProfile::FULL, segs.clone()); rs.push(rule_text(&g.rule(t))); } groups.push(rs); }
             let (from, plus) = if t.chance(1, 2) { gen_romanisers(t, &segs) } else { (vec![], false) };
             let (into, table) = if t.chance(1, 4) { gen_deromanisers(t) } else { (vec![], vec![]) };
+            add_twin_words(t, &mut words);
             if let Some((f, _)) = table.first() { if t.chance(1, 2) { words.push(format!("{f}a")); } }
             Some(json!({"kind": "triple", "groups": groups, "words": words, "into": into, "from": from, "plus": plus}))
         });
